@@ -45,3 +45,12 @@ Definition selected (thr : Q) (ps : list scost) (d : Z) : Prop :=
 
 (* bands only appended: [new] extends [old] by exactly [added], nothing else moves *)
 Definition appended {A : Type} (old added new : list A) : Prop := new = old ++ added.
+
+(* std_intensity: the w x w window of the image whose top-left corner is (r, c), row by row;
+   its variance is the mean of the squares minus the square of the mean *)
+Definition window (w : nat) (img : list (list Q)) (r c : nat) : list Q :=
+  concat (map (fun row => firstn w (skipn c row)) (firstn w (skipn r img))).
+Fixpoint qsum (l : list Q) : Q := match l with [] => 0%Q | x :: r => (x + qsum r)%Q end.
+Definition window_variance (w : nat) (win : list Q) : Q :=
+  let n := inject_Z (Z.of_nat (w * w)) in
+  (qsum (map (fun x => x * x) win) / n - (qsum win / n) * (qsum win / n))%Q.
